@@ -140,7 +140,7 @@ def run_wrapper(rng, obs, focus='c01'):
         obs.event('assert:c04', 3); obs.event('iterations', it); obs.event('api_calls', 1)
     refpen = K.ref_penalty(pen_spec)
     obs.event('cost_calls', probe.n)
-    if fopt is not None and math.isfinite(float(fopt)):
+    if fopt is not None and math.isfinite(float(fopt)) and kw.get('cliprange') is not False:
         obs.check(tuple(xl) in seen, 'c01:wrapper xopt is a point where the cost was actually called', wrapper=which, xopt=xl, fopt=float(fopt),
                   cons=cons_spec, box=box)
         fb = raw(xl) + refpen(xl)
